@@ -71,6 +71,8 @@ def run(repo, rep, tier):
     # ordinal of their own in the variable name, or the key function itself
     # has to be injective (the C09 obligation, borrowed there)
     L.option_defaults_rule(repo, rep, "R10.1", ("implicit_i18n_translate",))
+    L.option_forwarded_rule(repo, rep, "R10.1", ("implicit_i18n_attributes",))
+    L.whitelist_rule(repo, rep, "R10.1", ("chameleon.i18n",))
     L.innermost_rule(repo, rep, "R10.4", ("chameleon.compiler.Compiler",
                                             "chameleon.zpt.program.MacroProgram"),
                      only=("_translations", "_implicit_translation"))
